@@ -470,90 +470,48 @@ class Envelope:
                         ps = jnp.einsum("ab,cd->abcd", ps, post_measurement)
 
             # Handle post measurement processes
-            ps = self.state.reshape(reshape_shape)
-            if self.expansion_level == ExpansionLevel.Vector:
-                if separate_measurement and len(states) == 1:
-                    if self.fock not in states:
-                        self.fock.state = jnp.take(
-                            ps, outcomes[self.polarization], self.polarization.index
-                        )
-                        self.fock.expansion_level = ExpansionLevel.Vector
-                        self.fock.index = None
-                        if destructive:
-                            self.polarization._set_measured()
-                        else:
-                            self.polarization.state = jnp.zeros((2, 1))
-                            self.polarization.state.at[
-                                1, outcomes[self.polarization]
-                            ].set(1)
-                            self.polarization.index = None
-                    if self.polarization not in states:
-                        self.polarization.state = jnp.take(
-                            ps, outcomes[self.fock], self.fock.index
-                        )
-                        self.polarization.expansion_level = ExpansionLevel.Vector
-                        self.polarization.index = None
-                        if destructive:
-                            self.fock._set_measured()
-                        else:
-                            self.fock.state = outcomes[self.fock]
-                            self.fock.expansion_level = ExpansionLevel.Label
-                            self.fock.index = None
-                else:
-                    if self.fock.index == 0:
-                        self.fock.state = jnp.einsum("ijk->ik", ps)
-                    else:
-                        self.fock.state = jnp.einsum("ijk->jk", ps)
-                    self.fock.expansion_level = ExpansionLevel.Vector
-                    self.fock.index = None
+            from photon_weave.state.polarization import PolarizationLabel
 
-                    if self.polarization.index == 0:
-                        self.polarization.state = jnp.einsum("ijk->ik", ps)
-                    else:
-                        self.polarization.state = jnp.einsum("ijk->jk", ps)
-                    self.polarization.expansion_level = ExpansionLevel.Vector
-                    self.polarization.index = None
-                    if destructive:
-                        self._set_measured()
-                        self.polarization._set_measured()
-                        self.fock._set_measured()
-            if self.expansion_level == ExpansionLevel.Matrix:
-                if separate_measurement and len(states) == 1:
-                    if self.fock not in states:
-                        if self.fock.index == 0:
-                            self.fock.state = jnp.einsum("abcb->ac", ps)
-                        elif self.fock.index == 1:
-                            self.fock.state = jnp.einsum("abac->bc", ps)
-                        self.fock.expansion_level = ExpansionLevel.Matrix
-                        self.fock.index = None
-                        if destructive:
-                            self.polarization._set_measured()
-                    if self.polarization not in states:
-                        if self.polarization.index == 0:
-                            self.polarization.state = jnp.einsum("abcb->ac", ps)
-                        elif self.polarization.index == 1:
-                            self.polarization.state = jnp.einsum("abac->bc", ps)
-                        self.polarization.expansion_level = ExpansionLevel.Matrix
-                        self.polarization.index = None
-                        if destructive:
-                            self.fock._set_measured()
+            level = self.expansion_level
+            ps = self.state.reshape(reshape_shape)
+
+            # Project the state onto the outcomes
+            slices: List[Union[slice, int]] = [slice(None)] * len(reshape_shape)
+            for measured_state, outcome in outcomes.items():
+                assert isinstance(measured_state.index, int)
+                slices[measured_state.index] = outcome
+                if level == ExpansionLevel.Matrix:
+                    slices[measured_state.index + 2] = outcome
+            ps = ps[tuple(slices)]
+
+            # The member which was not measured is moved into its own space
+            for member in [self.fock, self.polarization]:
+                if member in outcomes:
+                    continue
+                if level == ExpansionLevel.Vector:
+                    member.state = ps.reshape((-1, 1)) / jnp.linalg.norm(ps)
                 else:
-                    if self.fock.index == 0:
-                        self.fock.state = jnp.einsum("ikjk->ij", ps)
-                    else:
-                        self.fock.state = jnp.einsum("kikj->ij", ps)
-                    self.fock.expansion_level = ExpansionLevel.Matrix
-                    self.fock.index = None
-                    if self.polarization.index == 0:
-                        self.polarization.state = jnp.einsum("ikjk->ij", ps)
-                    else:
-                        self.polarization.state = jnp.einsum("kikj->ij", ps)
-                    self.polarization.expansion_level = ExpansionLevel.Matrix
-                    self.polarization.index = None
-                    if destructive:
-                        self._set_measured()
-                        self.fock._set_measured()
-                        self.polarization._set_measured()
+                    member.state = ps / jnp.trace(ps)
+                member.expansion_level = level
+                member.index = None
+
+            # The measured members are destroyed or left in the measured state
+            for measured_state, outcome in outcomes.items():
+                if destructive:
+                    measured_state._set_measured()
+                    continue
+                if isinstance(measured_state, Polarization):
+                    measured_state.state = (
+                        PolarizationLabel.H if outcome == 0 else PolarizationLabel.V
+                    )
+                else:
+                    measured_state.state = outcome
+                measured_state.expansion_level = ExpansionLevel.Label
+                measured_state.index = None
+
+            # The envelope does not hold the state anymore
+            self.state = None
+            self._expansion_level = None
             self.polarization.contract()
             self.fock.contract()
 
